@@ -6,7 +6,7 @@ CONSTANTS Clients = {"c1"}
   SetLists <- Lists0
   Indexes <- IdxAll
   MaxLen = 2
-  Records = {"r1","r2"}
+  Records = {"r1","r2","r3"}
   CacheSizes = {0,1,2}
   Paths = {}
   Payloads = {}
